@@ -1122,29 +1122,43 @@ std::ostream& expression_t::print(std::ostream& os, bool old) const
     int nb;
 
     switch (data->kind) {
+    // children of the Pr[...] and E[...] forms: number of runs (-1 if not given), bound type or bounded
+    // expression, bound, and then the operands specific to the form
     case PROBA_MIN_BOX: flag = true; [[fallthrough]];
     case PROBA_MIN_DIAMOND:
         os << "Pr[";
-        print_bound_type(os, get(0));
-        get(1).print(os, old);
+        print_bound_type(os, get(1));
+        get(2).print(os, old);
+        if (get(0).get_value() != -1)
+            get(0).print(os << "; ", old);
         os << (flag ? "]([] " : "](<> ");
-        get(2).print(os, old) << ") >= " << get(3).get_double_value();
+        get(3).print(os, old) << ") >= " << get(4).get_double_value();
         break;
 
     case PROBA_BOX: flag = true; [[fallthrough]];
     case PROBA_DIAMOND:
         os << "Pr[";
-        print_bound_type(os, get(0));
-        get(1).print(os, old) << (flag ? "]([] " : "](<> ");
-        get(2).print(os, old) << ")";
+        print_bound_type(os, get(1));
+        get(2).print(os, old);
+        if (get(0).get_value() != -1)
+            get(0).print(os << "; ", old);
+        if (flag || get(4).is_true()) {
+            os << (flag ? "]([] " : "](<> ");
+            get(3).print(os, old) << ")";
+        } else {  // Pr[...](p U q): the last operand is the stop condition
+            get(3).print(os << "](", old) << " U ";
+            get(4).print(os, old) << ")";
+        }
         break;
 
     case PROBA_EXP:
         os << "E[";
-        print_bound_type(os, get(0));
-        get(1).print(os, old) << "; ";
-        get(2).print(os, old) << "] (" << (get(4).get_value() ? "max: " : "min: ");
-        get(3).print(os, old) << ")";
+        print_bound_type(os, get(1));
+        get(2).print(os, old);
+        if (get(0).get_value() != -1)
+            get(0).print(os << "; ", old);
+        os << "] (" << (get(3).get_value() ? "max: " : "min: ");
+        get(4).print(os, old) << ")";
         break;
 
     case PROBA_CMP:
